@@ -307,10 +307,23 @@ func (v *queue_[V]) AddValue(value V) {
 
 func (v *queue_[V]) RemoveAll() {
 	verifPoint(verifLockReset, v)
-	v.mutex_.Lock()
-	v.available_ = make(chan bool, v.capacity_)
-	v.values_ = List[V](v.GetClass().Notation()).Make()
-	v.mutex_.Unlock()
+	// Remove the values one at a time, the same way RemoveHead() does, until no
+	// more are available.  The channel itself must never be replaced: callers
+	// blocked on it would be stranded and its tokens would get out of step with
+	// the values.
+	for {
+		select {
+		case _, ok := <-v.available_:
+			if !ok {
+				return // The queue has been closed and is now empty.
+			}
+			v.mutex_.Lock()
+			v.values_.RemoveValue(1)
+			v.mutex_.Unlock()
+		default:
+			return // No more values are available.
+		}
+	}
 }
 
 // Sequential
